@@ -31,12 +31,16 @@ class C(Component):
         return 0
 
 
+class D(B):
+    """A component type derived from another user component type (type identity, not subclassing, decides)."""
+
+
 class Z(Component):      # a type nobody ever carries
     pass
 
 
-TYPES = {"A": A, "B": B, "C": C, "Z": Z}
-LISTED = ("A", "B", "C")
+TYPES = {"A": A, "B": B, "C": C, "D": D, "Z": Z}
+LISTED = ("A", "B", "C", "D")
 BAD = -99999
 
 
@@ -92,9 +96,19 @@ class Driver:
                 return m
         raise AssertionError
 
+    def where(self, a):
+        """The model in whose environment the agent currently is (None if nowhere), through the public lookup."""
+        ag = self.agents[tuple(a)]
+        for m, (mod, _, _) in self.models.items():
+            if mod.environment.get_agent(ag.id) is ag:
+                return m
+        return None
+
     # ---------------- projection through the public API ----------------
     def obs(self):
         models = []
+        self.nobs = getattr(self, "nobs", 0) + 1
+        ask_all = self.nobs % 3 != 2          # the unfiltered listing is not asked after every single call
         for m, (mod, cls, _) in self.models.items():
             envr = mod.environment
             ids = sorted({k[0] for k in self.agents})
@@ -124,8 +138,9 @@ class Driver:
                     if len(lst) > 40:      # keep traces small: an absurd listing is rejected anyway
                         entries.append([["?overflow", len(lst)], -1])
                 listing.append({"T": T, "entries": entries, "form": form, "strict": strict})
-            models.append({"m": m, "env": [self.obj_of(a) for a in envr], "len": len(envr),
-                           "all": [self.obj_of(a) for a in envr.get_agents()], "by_id": by_id, "listing": listing})
+            models.append({"m": m, "env": [self.obj_of(a) for a in envr], "len": len(envr), "hasall": ask_all,
+                           "all": [self.obj_of(a) for a in envr.get_agents()] if ask_all else [], "by_id": by_id,
+                           "listing": listing})
         agents = []
         for k, ag in self.agents.items():
             comps = []
@@ -134,7 +149,7 @@ class Driver:
             for ct, c in ag.components.items():
                 if ct is PositionComponent:
                     haspos = True
-                    m = self.model_of(k)
+                    m = self.where(k) or self.model_of(k)
                     p = [self.to_units(m, v) for v in c.xyz()]
                 else:
                     name = next((n for n, t in TYPES.items() if t is ct), "?")
@@ -189,7 +204,7 @@ class Driver:
         try:
             ag.add_component(comp)
             if reg:
-                ag.model.systems.register_component(comp)
+                self.models[self.where(a) or self.model_of(a)][0].systems.register_component(comp)
         except Exception as e:  # noqa: BLE001
             exc = e
         self.emit({"op": "attach", "a": list(a), "T": T, "s": serial, "reg": bool(reg)}, exc)
@@ -199,7 +214,7 @@ class Driver:
         exc = None
         try:
             if dereg and TYPES[T] in ag:
-                ag.model.systems.deregister_component(ag[TYPES[T]])
+                self.models[self.where(a) or self.model_of(a)][0].systems.deregister_component(ag.components[TYPES[T]])
             ag.remove_component(TYPES[T])
         except Exception as e:  # noqa: BLE001
             exc = e
@@ -207,19 +222,19 @@ class Driver:
 
     def op_register(self, a, T):
         ag = self.agents[tuple(a)]
-        comp = ag[TYPES[T]]
+        comp = ag.components.get(TYPES[T])
         if comp is None:
             return
         exc = None
         try:
-            ag.model.systems.register_component(comp)
+            self.models[self.where(a) or self.model_of(a)][0].systems.register_component(comp)
         except Exception as e:  # noqa: BLE001
             exc = e
         self.emit({"op": "register", "a": list(a), "T": T}, exc)
 
-    def op_join(self, a, p):
+    def op_join(self, a, p, target=None):
         ag = self.agents[tuple(a)]
-        m = self.model_of(a)
+        m = target or self.model_of(a)
         envr = self.models[m][0].environment
         exc = None
         try:
@@ -229,7 +244,7 @@ class Driver:
                 envr.add_agent(ag, *[self.to_py(m, v) for v in p])
         except Exception as e:  # noqa: BLE001
             exc = e
-        self.emit({"op": "join", "a": list(a), "p": list(p) if self.models[m][1] != "plain" else []}, exc)
+        self.emit({"op": "join", "a": list(a), "m": m, "p": list(p) if self.models[m][1] != "plain" else []}, exc)
 
     def op_leave(self, m, i):
         exc = None
@@ -255,7 +270,7 @@ class Driver:
 
     def op_move(self, a, d):
         ag = self.agents[tuple(a)]
-        m = self.model_of(a)
+        m = self.where(a) or self.model_of(a)
         if self.models[m][1] == "plain":
             return
         exc = None
@@ -270,7 +285,7 @@ class Driver:
 
     def op_move_to(self, a, p):
         ag = self.agents[tuple(a)]
-        m = self.model_of(a)
+        m = self.where(a) or self.model_of(a)
         if self.models[m][1] == "plain":
             return
         exc = None
@@ -293,6 +308,27 @@ class Driver:
         except Exception as e:  # noqa: BLE001
             exc = e
         self.emit({"op": "agents_at", "m": m, "q": list(q), "l": l, "al": list(al), "res": res}, exc)
+
+    def op_move_sat(self, ext, start, dirs):
+        """A separate continuous, non-wrapping world with arbitrary float extents: move far beyond / below / not at all per axis
+        and report where the agent landed relative to the edges (exact float comparison)."""
+        mod = Model()
+        w = SpaceWorld(mod, *ext)
+        mod.set_environment(w)
+        ag = Agent("s", mod)
+        exc = None
+        res = ["?", "?", "?"]
+        try:
+            w.add_agent(ag, *start)
+            before = ag[PositionComponent].xyz()
+            w.move(ag, *[d * (10 * e + 3.7) for d, e in zip(dirs, ext)])
+            after = ag[PositionComponent].xyz()
+            for i in range(3):
+                res[i] = "hi" if (dirs[i] == 1 and after[i] == ext[i]) else "lo" if (dirs[i] == -1 and after[i] == 0) else \
+                    "same" if (dirs[i] == 0 and after[i] == before[i]) else "off:%r" % (after[i],)
+        except Exception as e:  # noqa: BLE001
+            exc = e
+        self.emit({"op": "move_sat", "ext": [repr(e) for e in ext], "start": [repr(v) for v in start], "dirs": list(dirs), "res": res}, exc)
 
     def _filter_args(self, tpl, tag):
         return [TYPES[t] for t in tpl], ({} if tag is None else {"tag": tag})
@@ -383,7 +419,7 @@ def delta_pool(e, fine):
 
 
 def random_run(rng, *, kinds=("plain",), n_models=2, n_ids=3, length=40, mods="clean", spatial=True,
-               queries=True, lookups=True, tags=(None, None, 0, 1, 7), weights=None, nseeds=0):
+               queries=True, lookups=True, tags=(None, None, 0, 1, 7), weights=None, nseeds=0, guests=False):
     """Returns (program, events).  mods: 'clean' = never touch components of resident agents;
     'sanctioned' = residents only with the explicit (de)register calls; 'any' = also without them."""
     d = Driver()
@@ -427,8 +463,7 @@ def random_run(rng, *, kinds=("plain",), n_models=2, n_ids=3, length=40, mods="c
     wts = [W[k] for k in names]
 
     def resident(a):
-        ag = d.agents[tuple(a)]
-        return d.models[d.model_of(a)][0].environment.get_agent(ag.id) is ag
+        return d.where(a) is not None
 
     for _ in range(length):
         m = rng.choice(list(worlds))
@@ -459,6 +494,14 @@ def random_run(rng, *, kinds=("plain",), n_models=2, n_ids=3, length=40, mods="c
             if resident(a) and TYPES[T] in d.agents[tuple(a)]:
                 do(["register", a, T])
         elif op == "join":
+            if guests and not resident(a) and rng.random() < 0.25:
+                tm = rng.choice(list(worlds))          # an agent built for one model joins the environment of another
+                tcls, text, _ = worlds[tm]
+                tp = None if tcls == "plain" else [rng.randint(0, max(e - (0 if tcls == "space" else 1), 0)) if e else 0 for e in text]
+                do(["join", a, tp, tm])
+                continue
+            if d.where(a) not in (None, m):
+                continue        # resident in another model's environment: one environment at a time
             p = None if cls == "plain" else [rng.choice(coord_pool(e, fine)) if rng.random() < 0.45 else
                                                (rng.randint(0, max(e - (0 if fine else 1), 0)) if e else 0) for e in ext]
             do(["join", a, p])
@@ -478,7 +521,9 @@ def random_run(rng, *, kinds=("plain",), n_models=2, n_ids=3, length=40, mods="c
             lw = [-1, 0, 0, 1, 2, 4, 7]
             do(["agents_at", m, q, rng.choice(lw), [rng.choice(lw) for _ in range(3)]])
         elif op in ("get_agents", "pick", "shuffle"):
-            tpl = rng.sample(["A", "B", "C", "Z"], rng.choice([0, 0, 1, 1, 2, 3]))
+            tpl = rng.sample(["A", "B", "C", "D", "Z"], rng.choice([0, 0, 1, 1, 2, 3]))
+            if tpl and rng.random() < 0.2:
+                tpl = tpl + [rng.choice(tpl)]            # a template may name a type twice
             tag = rng.choice([None, None, 0, 1, 7, 5])
             if op == "pick":
                 do(["pick", m, tpl, tag, nseeds])
@@ -498,6 +543,8 @@ def tamper(trace, rng):
     if r < 0.4 and len(M["env"]) > 1:
         M["env"] = M["env"][::-1]
         M["all"] = M["all"][::-1]
+        if M["env"] == M["env"][::-1]:
+            M["len"] += 1
     elif r < 0.7:
         M["len"] += 1
     else:
@@ -546,13 +593,13 @@ def program_from_walk(walk, probe=None, salt=0):
             homes[tuple(a)] = m
             add(["agent", list(a), m, None if (tg == 0 and (salt + len(prog)) % 2) else tg])
         elif name in ("Join", "OfferJoin"):
-            a, p = args[0], args[1]
-            add(["join", list(a), list(p) if p else None])
+            a, m, p = args[0], args[1], args[2]
+            add(["join", list(a), list(p) if p else None, m])
         elif name == "JoinRejectedDup":
-            a = args[0]
-            add(["join", list(a), None if kinds[homes[tuple(a)]] == "plain" else [0, 0, 0]])
+            a, m = args[0], args[1]
+            add(["join", list(a), None if kinds[m] == "plain" else [0, 0, 0], m])
         elif name == "JoinRejectedOOB":
-            add(["join", list(args[0]), list(args[1])])
+            add(["join", list(args[0]), list(args[2]), args[1]])
         elif name in ("Leave", "LeaveRejected", "LeaveZombie"):
             add(["leave", args[0], args[1]])
         elif name in ("Attach", "OfferAttach"):
